@@ -4,6 +4,7 @@ import (
 	"context"
 
 	"git.defalsify.org/vise.git/db"
+	fsdb "git.defalsify.org/vise.git/db/fs"
 	memdb "git.defalsify.org/vise.git/db/mem"
 	"git.defalsify.org/vise.git/lang"
 	"git.defalsify.org/vise.git/resource"
@@ -14,9 +15,23 @@ import (
 // translation -> default lookup of db.ToKey/DbGetTemplate/DbGetMenu. External functions are
 // registered as local functions and recorded in env like Res does.
 func NewDbRes(a *App, env *Env) resource.Resource {
-	ctx := context.Background()
 	store := memdb.NewMemDb()
-	store.Connect(ctx, "")
+	store.Connect(context.Background(), "")
+	return NewDbResOn(a, env, store, false)
+}
+
+// NewDbResFs is NewDbRes over db/fs in dir, with the translations written the way dev/dbconvert writes
+// them: under the plain key <symbol>_<language code> with no language selected on the store.
+func NewDbResFs(a *App, env *Env, dir string) resource.Resource {
+	store := fsdb.NewFsDb()
+	if err := store.Connect(context.Background(), dir); err != nil {
+		panic(err)
+	}
+	return NewDbResOn(a, env, store, true)
+}
+
+func NewDbResOn(a *App, env *Env, store db.Db, rawTrans bool) resource.Resource {
+	ctx := context.Background()
 	for _, t := range []uint8{db.DATATYPE_BIN, db.DATATYPE_TEMPLATE, db.DATATYPE_MENU, db.DATATYPE_STATICLOAD} {
 		store.SetLock(t, false)
 	}
@@ -24,6 +39,9 @@ func NewDbRes(a *App, env *Env) resource.Resource {
 		store.SetPrefix(typ)
 		if l == "" {
 			store.SetLanguage(nil)
+		} else if rawTrans {
+			store.SetLanguage(nil)
+			key += "_" + l
 		} else {
 			ln, err := lang.LanguageFromCode(l)
 			if err != nil {
